@@ -250,6 +250,17 @@ def operations(ws):
         ops.append(("swap", "channels", chans[0], chans[1]))
     if len(samp) >= 2:
         ops.append(("swap", "samples", samp[0], samp[1]))
+    # renamings whose new names are the *old* names of other configured parameters (swap, chain onto a fresh name, identity): still
+    # bijective relabellings, and the measurement configurations must follow their parameters (seed C16-s7)
+    conf = sorted({p["name"] for m in ws["measurements"] for p in m["config"].get("parameters", [])} & set(mods))
+    conf = (conf + [m for m in mods if m not in conf])[:3]
+    for i in range(len(conf)):
+        for j in range(i + 1, len(conf)):
+            ops.append(("swap", "modifiers", conf[i], conf[j]))
+    if len(conf) >= 2 and conf[1] + "_r" not in mods:
+        ops.append(("chain", "modifiers", conf[0], conf[1], conf[1] + "_r"))
+    if conf:
+        ops.append(("rename", "modifiers", conf[0], conf[0]))
     ops.append(("prune", "channels", "nope"))
     ops.append(("rename", "modifiers", "nope", "x"))
     ops.append(("sorted",))
@@ -323,13 +334,17 @@ def bfs(case):
                             if verdict == "ok":
                                 issues.append(C.issue("C16:combine:refused:" + op[2], "compatible combine refused in history", **ctx))
                             continue
-                    elif op[0] in ("prune", "rename", "swap"):
+                    elif op[0] in ("prune", "rename", "swap", "chain"):
                         if op[0] == "prune":
                             kw = {op[1]: [op[2]]}
                             fn_ref = lambda: RW.prune(ws, **kw)
                             fn = lambda: wobj.prune(**kw)
                         elif op[0] == "rename":
                             kw = {op[1]: {op[2]: op[3]}}
+                            fn_ref = lambda: RW.rename(ws, **kw)
+                            fn = lambda: wobj.rename(**kw)
+                        elif op[0] == "chain":
+                            kw = {op[1]: {op[2]: op[3], op[3]: op[4]}}
                             fn_ref = lambda: RW.rename(ws, **kw)
                             fn = lambda: wobj.rename(**kw)
                         else:
@@ -366,8 +381,8 @@ def bfs(case):
                             continue
                         check_result(res, ref, ctx)
                         lk_equal(ws, res, ctx)
-                        if op[0] in ("rename", "swap"):
-                            inv = {op[1]: ({op[3]: op[2]} if op[0] == "rename" else {op[2]: op[3], op[3]: op[2]})}
+                        if op[0] in ("rename", "swap", "chain"):
+                            inv = {op[1]: ({op[3]: op[2]} if op[0] == "rename" else {op[3]: op[2], op[4]: op[3]} if op[0] == "chain" else {op[2]: op[3], op[3]: op[2]})}
                             back = json.loads(json.dumps(got.rename(**inv)))
                             ncmp += 1
                             if back != {k: ws[k] for k in back}:
